@@ -323,3 +323,25 @@ func PairContradicting(h1, g1, p1, h2, g2, p2 uint32) bool {
 	}
 	return !follows(h1, g1, p1, h2, g2, p2)
 }
+
+// Clone returns an independent deep copy (fork-tree exploration: one model state per block).
+func (m *Model) Clone() *Model {
+	c := *m
+	c.Blocks = make(map[uint32]*Block, len(m.Blocks))
+	for h, b := range m.Blocks {
+		nb := *b
+		c.Blocks[h] = &nb
+	}
+	c.Params = make(map[uint32]*ParamSet, len(m.Params))
+	for h, p := range m.Params {
+		np := *p
+		np.Vals = append([]Val{}, p.Vals...)
+		c.Params[h] = &np
+	}
+	c.Active = make([]*VInfo, len(m.Active))
+	for i, v := range m.Active {
+		nv := *v
+		c.Active[i] = &nv
+	}
+	return &c
+}
